@@ -404,7 +404,7 @@ def corpus():
 
 
 def check(run: Run, lean: dict) -> int:
-    n = 1200 if run.tier == "quick" else 30000
+    n = run.budget(1200, 30000)
     run.extra["rule"] = (
         "generated trees (default namespace or none, a prefixed namespace, attributes, text/comment/PI children) x tag "
         "context node x child-axis name-test paths of 1-4 steps with 0-2 attribute-equality predicates per step (both operand "
